@@ -460,7 +460,33 @@ def unit_schema(U):
     IM_.prove_plain_schema(U, "C11", ['features'])
 
 
-UNITS = [("schema", unit_schema), ("order", unit_order), ("where", unit_where), ("counts", unit_counts), ("bounded", unit_bounded)]
+def unit_bounded_after_imports(U):
+    """Bounded: queries do not depend on what ELSE happened in the process: after imports that went through every merge
+    strategy (collisions included) in other databases, every valid order_by column - as a string and inside a tuple - still
+    sorts a database, and counts / featuretypes agree with a full scan"""
+    import gffutils.feature as F_
+    fails, cases = [], 0
+    mk = lambda i, ft, a, **att: F_.Feature(seqid="c", source="s", featuretype=ft, start=a, end=a + 5, strand="+", attributes=dict({"ID": [i]}, **{k: [v] for k, v in att.items()}))
+    db = gffutils.create_db([mk("a", "gene", 30), mk("b", "exon", 10), mk("c", "exon", 20)], ":memory:")
+    for strat in ("merge", "create_unique", "replace", "warning"):
+        other = gffutils.create_db([mk("k", "exon", 1, Note="n1"), mk("k", "exon", 1, Note="n2"), mk("k", "exon", 3)], ":memory:", merge_strategy=strat)
+        other.update([mk("k", "exon", 1, Note="n3")], merge_strategy=strat, make_backup=False)
+        for col in ("seqid", "source", "featuretype", "start", "end", "score", "strand", "frame", "attributes", "extra", "file_order", "length"):
+            for ob in (col, (col,), ("strand", col)):
+                cases += 1
+                try:
+                    got = [f.id for f in db.all_features(order_by=ob)]
+                    if sorted(got) != ["a", "b", "c"] or (col == "start" and not isinstance(ob, tuple) and got != ["b", "c", "a"]):
+                        fails.append({"case": {"after": "imports with merge_strategy=%r elsewhere" % strat, "order_by": ob}, "expected": "the three features sorted", "observed": got})
+                except Exception as e:
+                    fails.append({"case": {"after": "imports with merge_strategy=%r elsewhere" % strat, "order_by": ob}, "expected": "the three features sorted", "observed": repr(e)})
+        cases += 1
+        if db.count_features_of_type("exon") != 2 or sorted(db.featuretypes()) != ["exon", "gene"]:
+            fails.append({"case": {"after": strat}, "expected": [2, ["exon", "gene"]], "observed": [db.count_features_of_type("exon"), sorted(db.featuretypes())]})
+    U.bounded_result("C11.bounded.after_imports", "ordering / counting a database gives the same answers after other imports (all merge strategies, with collisions) ran in the process",
+                     "4 strategies x 12 order_by keys x {string, 1-tuple, 2-tuple}", cases, fails)
+
+UNITS = [("bounded.after_imports", unit_bounded_after_imports), ("schema", unit_schema), ("order", unit_order), ("where", unit_where), ("counts", unit_counts), ("bounded", unit_bounded)]
 
 
 def replay_file(doc):
